@@ -49,7 +49,7 @@ def plan(tier, seed):
                   ('cnl::static_integer<40>', 'static_integer40'),
                   ('cnl::scaled_integer<cnl::rounding_integer<cnl::overflow_integer<cnl::elastic_integer<12>, cnl::saturated_overflow_tag>, cnl::nearest_rounding_tag>, cnl::power<-4>>', 'nested4')]:
         regs.append('c04::Inverse<%s>::reg("%s")' % (t, tl))
-    cases = 8000 if quick else 100000
+    cases = 20000 if quick else 150000
     units = [Unit('C04-gxx-%d' % i, 'gxx', 'props/C04.h', part, rc_cases=cases, enum_max=2 ** 16, chunk=10)
              for i, part in enumerate(split(regs, 16))]
     cl = [r for r in regs if 'F2I' in r or 'I2F' in r][:30] + [r for r in regs if 'I2I' in r][:20]
